@@ -126,7 +126,8 @@ func c15Cases(seed int64, batch, perBatch int) []C15Case {
 				out = append(out, c15("payload-byte-flip/" + cmd, stage(), f))
 			}
 		case k < 10: // extended header with hostile lengths
-			cmd := []string{"tx", "block", "zzz", "headers", "ping"}[rng.Intn(5)]
+			// the inner command field is 12 bytes and need not contain a NUL
+			cmd := []string{"tx", "block", "zzz", "headers", "ping", "zqzqzqzqzqzq", "blockblockbl"}[rng.Intn(7)]
 			l := []uint64{0, 1, 1 << 31, 1 << 32, 1 << 40, 1 << 63, ^uint64(0)}[rng.Intn(7)]
 			tail := make([]byte, rng.Intn(120))
 			rng.Read(tail)
